@@ -31,7 +31,13 @@ def _mins(n):
                  # fault dimension: handled signals thrown at blocked threads; timed waits with a far deadline and the histories they are sensitive to
                  'cases_with_signals_socketpair': 40, 'cases_with_signals_waitcondition': 30,
                  'signals_delivered_to_blocked_internal_thread': 60, 'signals_delivered_to_blocked_owner_thread': 60,
-                 'long_timed_waits_ok': 800, 'timed_waits_started_with_message_already_queued': 1500, 'stale_notification_histories': 15}.items():
+                 'long_timed_waits_ok': 800, 'timed_waits_started_with_message_already_queued': 1500, 'stale_notification_histories': 15,
+                 # user sockets in the Thread's socket sets (socket-pair mechanism)
+                 'cases_with_user_sockets': 60, 'cases_with_user_socket_in_write_or_except_set_lower_fd_not_ready': 40,
+                 'wakeups_for_message_with_unready_user_sockets_internal_thread': 1500, 'wakeups_for_message_with_unready_user_sockets_owner': 250,
+                 'wakeups_for_message_with_unready_user_sockets': 2000, 'user_sockets_fd_above_wakeup_socket': 12, 'user_sockets_fd_below_wakeup_socket': 100,
+                 'early_wakeups_by_ready_user_socket_owner': 80, 'early_wakeups_by_ready_user_socket_internal_thread': 20, 'user_socket_toggles_to_ready': 100,
+                 'user_socket_internal_write_never_ready': 12, 'user_socket_internal_except_never_ready': 12, 'user_socket_owner_write_never_ready': 6, 'user_socket_owner_except_never_ready': 12}.items():
         m[k] = int(v * f)
     return m
 
@@ -49,7 +55,10 @@ SPEC = dict(
           "DispatchCallbacks() and gets the replies through Thread::MessageReceivedFromInternalThread(), sometimes sending from inside the callback; "
           "callback-only or mixed with direct GetNextReplyFromInternalThread() calls).  In a third of the cases a signaller thread throws SIGUSR1 (no-op handler, no SA_RESTART) "
           "a few times at the internal thread and/or the owner, preferably while the target is at its blocking point (bookkeeping from the hooked sites).  "
-          "Timed receives also come with a 3 s deadline, begun only when a reply is due, sometimes after polling the queue empty first; verdicts on them "
+          "On socket-pair Threads two thirds of the cases register 1-3 harness socket pairs with the internal thread and/or the owner in "
+          "SOCKET_SET_READ / WRITE / EXCEPTION (created before the Thread's own socket pair = lower fd, or after = higher fd; never ready: nothing to read, "
+          "send buffer filled, exception set; or toggled ready by the owner, which legally ends a wait early with B_IO_READY, whereupon the waiter makes it "
+          "unready again); an unready one must never keep a Message from waking the waiter.  Timed receives also come with a 3 s deadline, begun only when a reply is due, sometimes after polling the queue empty first; verdicts on them "
           "are by return code only: B_TIMED_OUT although a reply was already queued before the call, or (wait-condition Threads, where B_TIMED_OUT is "
           "returned only at the deadline) although the next reply's send had returned more than 1 s before the deadline.  The checker runs in "
           "the harness on the internal thread's and the owner's logs: exactly once, per-sender FIFO in both directions (the owner's stream "
@@ -62,6 +71,7 @@ SPEC = dict(
                  'blocking and timed receives are attempted only while the Thread counts as running; a stopped socket-pair Thread has no socket to wait on (unspecified corner, polled instead)',
                  'the owner selects on GetOwnerWakeupSocket() only after its own last dequeue attempt found the reply queue empty',
                  'the harness ICallbackMechanism keeps a latched flag; the owner consumes it only directly before a full ICallbackMechanism::DispatchCallbacks()',
+                 'user sockets that can become ready are given to the internal thread only in the mixed-waits style: the default InternalThreadEntry() loop treats B_IO_READY as fatal (by design: a subclass that registers sockets writes its own loop)',
                  'GetRunTime64() is one monotonic clock for all threads (the sender stamps a reply after SendMessageToOwner() returned; the stamp is compared with the deadline the receiver chose, never with when the receiver ran)',
                  'g++ 12 ASan/UBSan/TSan report what they claim to report; the deadlock detector of lib/driver.py proves hangs'],
     legs=[
@@ -71,5 +81,6 @@ SPEC = dict(
     ],
     min_stats={'asan': _mins(3456), 'tsan': _mins(2304), 'regress': {'regress_combinations': 9, 'regress_callback_request_during_drain_witnesses': 4, 'regress_callback_requests_signalled_during_drain': 4,
                         'regress_signal_witnesses': 5, 'regress_signals_at_blocked_internal_thread': 10, 'regress_signals_at_blocked_owner_thread': 5,
-                        'regress_stale_notification_witnesses': 5, 'regress_stale_notification_histories_seen': 2, 'regress_long_timed_waits_ok': 5}},
+                        'regress_stale_notification_witnesses': 5, 'regress_stale_notification_histories_seen': 2, 'regress_long_timed_waits_ok': 5,
+                        'regress_user_socket_witnesses': 3, 'regress_wakeups_with_unready_user_sockets': 9, 'regress_waitcondition_rejects_user_sockets': 2}},
 )
